@@ -503,6 +503,11 @@ def judge_documents(res, cs, cr):
         k = cr.death['op_index']
         res.count('deaths')
         stage = 'load' if cs['meta'].get('load') and k == (1 if kind == 'json-model' else 0) else ('post-load' if cs['meta'].get('load') else 'produce')
+        if stage == 'post-load':
+            # the property speaks about the load call; what later calls do with an accepted but absurd document (a grid row of
+            # 2147483647, ...) is observed and counted, not judged
+            res.count('post_load_faults')
+            return
         res.violation(f"{PROP}/fault/{kind}:{stage}:{cr.death['key']}", f"op {json.dumps(cs['ops'][k], ensure_ascii=False)[:300]}\n" + cr.death['text'][-2500:], cs)
         return
     if cr.hang:
